@@ -2,17 +2,24 @@
 // real net/http server — against a scripted raw loopback backend, and reports what the client saw, what status
 // the proxy recorded and which connection-state notifications were delivered.
 //
+//	cfg rht=<ms> [tr=own|keep] [up=none|cb|trace|rb|rr-verbose]
+//	                                           up: a real oxy middleware between the StateListener and the forwarder that never
+//	                                           intervenes: CircuitBreaker with a condition that cannot hold, Tracer writing to
+//	                                           io.Discard, Rebalancer (over a RoundRobin) or verbose RoundRobin whose only pool
+//	                                           member is the op's backend
 //	cfg rht=<ms> [tr=own|keep]                 ResponseHeaderTimeout of the proxy's transport; tr=keep keeps the RoundTripper
 //	                                           forward.New chose (nil = a clone of http.DefaultTransport) and only switches
 //	                                           keep-alives off and sets the timeout on it; tr=own installs a fresh http.Transport
-//	resp s=<status> d=<n>:<digest> seed=<k> mode=cl|chunked|close|none [chunks=a,b,..] [slow=1] [rh=Name:pe(value)]...
-//	   -> <status> body=<n>:<digest> H <client headers> ev=<events> rec=<status>
+//	resp s=<status> d=<n>:<digest> seed=<k> mode=cl|chunked|close|none [chunks=a,b,..] [slow=1] [pre=103,102] [rh=Name:pe(value)]...
+//	   -> <status> [pre=<1xx codes the client saw>] body=<n>:<digest> H <client headers> ev=<events> rec=<status>
+//	      (pre: interim responses the backend sends before the final head; rec is the first non-1xx status written)
 //	fail refused|reset-before|close-before|stall|garbage
 //	   -> <status> ev=<events> rec=<status>
 //	fail client-cancel                         the client disconnects while the backend stalls
 //	   -> gone ev=<events> rec=<status>
 //	abort s=<status> n=<len> sent=<k> seed=<k> mode=cl|chunked      head + k body bytes, then RST
-//	   -> aborted ev=<events> rec=<status>      (anything else if the client was handed a complete response)
+//	   -> aborted ev=<events> rec=<status>      (the client saw a read error / missing bytes against the declared framing)
+//	      short <status> <got>/<n> ...           if the response ended *cleanly* (valid framing, no read error) short of the n scripted bytes
 //	presp c=<k> s=<status> d=<n>:<dig0>/<dig1>/.. seed=<base> mode=cl|chunked     k concurrent clients, client i is sent fx.Body(base+i, n)
 //	   -> <status>:<n>:<dig0> <status>:<n>:<dig1> .. evc=<#connected>/<#disconnected>
 //	listener ret|panic|abort                   StateListener around a handler that returns / panics / panics with ErrAbortHandler
@@ -35,7 +42,11 @@ import (
 	"sync"
 	"time"
 
+	"github.com/vulcand/oxy/v2/cbreaker"
 	"github.com/vulcand/oxy/v2/forward"
+	"github.com/vulcand/oxy/v2/roundrobin"
+	"github.com/vulcand/oxy/v2/trace"
+	"github.com/vulcand/oxy/v2/utils"
 	"github.com/vulcand/oxy/v2/zzverif/cmd/c08/fx"
 	"github.com/vulcand/oxy/v2/zzverif/hx"
 )
@@ -48,7 +59,7 @@ type recorder struct {
 
 func (r *recorder) WriteHeader(c int) {
 	r.mu.Lock()
-	if r.status == 0 {
+	if r.status == 0 && (c < 100 || c > 199) { // interim (1xx) responses are not the status of the exchange
 		r.status = c
 	}
 	r.mu.Unlock()
@@ -85,6 +96,10 @@ type h struct {
 	be      *fx.Backend
 	gotReq  chan struct{}
 	release chan struct{}
+	// pool administration when a balancer installs the backend URL (up=rb|rr-verbose)
+	upsert  func(*url.URL) error
+	remove  func(*url.URL) error
+	pool    *url.URL
 }
 
 func newScenario(cfg []string) (hx.Handler, string) {
@@ -117,6 +132,30 @@ func newScenario(cfg []string) (hx.Handler, string) {
 		fwd.Transport = s.tr
 	}
 	fwd.ErrorLog = log.New(io.Discard, "", 0)
+	up, _ := hx.KV(cfg, "up")
+	nop := &utils.NoopLogger{}
+	var balancer http.Handler
+	switch up {
+	case "", "none", "cb", "trace":
+	case "rr-verbose":
+		rr, err := roundrobin.New(fwd, roundrobin.Verbose(true), roundrobin.Logger(nop))
+		if err != nil {
+			return nil, "err " + err.Error()
+		}
+		s.upsert, s.remove, balancer = func(u *url.URL) error { return rr.UpsertServer(u) }, rr.RemoveServer, rr
+	case "rb":
+		rr, err := roundrobin.New(fwd)
+		if err != nil {
+			return nil, "err " + err.Error()
+		}
+		rb, err := roundrobin.NewRebalancer(rr, roundrobin.RebalancerLogger(nop))
+		if err != nil {
+			return nil, "err " + err.Error()
+		}
+		s.upsert, s.remove, balancer = func(u *url.URL) error { return rb.UpsertServer(u) }, rb.RemoveServer, rb
+	default:
+		return nil, "bad-op"
+	}
 	wrap := http.HandlerFunc(func(w http.ResponseWriter, r *http.Request) {
 		s.mu.Lock()
 		inner, target := s.inner, s.target
@@ -131,11 +170,30 @@ func newScenario(cfg []string) (hx.Handler, string) {
 		case "abort":
 			panic(http.ErrAbortHandler)
 		}
+		if balancer != nil {
+			balancer.ServeHTTP(w, r) // installs the pool's only server as r.URL and calls the forwarder
+			return
+		}
 		u := *target
 		r.URL = &u
 		fwd.ServeHTTP(w, r)
 	})
-	sl := forward.NewStateListener(wrap, func(_ *url.URL, state int) {
+	var listened http.Handler = wrap
+	switch up {
+	case "cb":
+		cb, err := cbreaker.New(wrap, "NetworkErrorRatio() > 1.5", cbreaker.Logger(nop))
+		if err != nil {
+			return nil, "err " + err.Error()
+		}
+		listened = cb
+	case "trace":
+		tr, err := trace.New(wrap, io.Discard, trace.Logger(nop))
+		if err != nil {
+			return nil, "err " + err.Error()
+		}
+		listened = tr
+	}
+	sl := forward.NewStateListener(listened, func(_ *url.URL, state int) {
 		name := fmt.Sprintf("state%d", state)
 		switch state {
 		case forward.StateConnected:
@@ -219,6 +277,14 @@ func (s *h) prepareN(target string, inner string, k int) {
 	s.gotReq = make(chan struct{}, 1)
 	s.release = make(chan struct{})
 	s.mu.Unlock()
+	if s.upsert != nil && (s.pool == nil || s.pool.Host != target) {
+		old := s.pool
+		s.pool = &url.URL{Scheme: "http", Host: target}
+		_ = s.upsert(s.pool)
+		if old != nil {
+			_ = s.remove(old)
+		}
+	}
 }
 
 const reqBytes = "GET /c16 HTTP/1.1\r\nHost: client.example\r\n\r\n"
@@ -252,11 +318,21 @@ func (s *h) Op(f []string) string {
 				pieces = append(pieces, hx.Atoi(c))
 			}
 		}
+		var pre []int
+		if ps, ok := hx.KV(f, "pre"); ok && ps != "" {
+			for _, c := range strings.Split(ps, ",") {
+				pre = append(pre, hx.Atoi(c))
+			}
+		}
 		slow := hx.KVInt(f, "slow", 0) == 1
 		body := fx.Body(seed, n)
 		s.prepare(s.be.Addr, "")
 		s.be.SetScript(func(c net.Conn, _ *bufio.Reader, _ *fx.RawReq) bool {
 			bw := bufio.NewWriterSize(c, 64<<10)
+			for _, code := range pre {
+				fmt.Fprintf(bw, "HTTP/1.1 %d Interim\r\nLink: </x-%d>\r\n\r\n", code, code)
+				bw.Flush()
+			}
 			fmt.Fprintf(bw, "HTTP/1.1 %d X\r\n", status)
 			for _, hv := range rh {
 				fmt.Fprintf(bw, "%s: %s\r\n", hv.Name, hv.Value)
@@ -310,11 +386,22 @@ func (s *h) Op(f []string) string {
 			return "err client " + strings.ReplaceAll(err.Error(), " ", "_")
 		}
 		var out string
+		preSeen := ""
+		if len(res.Interim) > 0 {
+			var ps []string
+			for _, c := range res.Interim {
+				ps = append(ps, fmt.Sprint(c))
+			}
+			preSeen = " pre=" + strings.Join(ps, ",")
+		}
 		switch {
 		case !res.Head || !res.Complete:
 			out = "aborted"
+		case isAbort:
+			// valid framing, no read error, yet fewer bytes than the backend was scripted to send in total
+			out = fmt.Sprintf("short %d %d/%d", res.Status, len(res.Body), n)
 		default:
-			out = fmt.Sprintf("%d body=%s H %s", res.Status, fx.Sum(res.Body), fx.CanonHeaders(res.Headers, fx.ClientDrop))
+			out = fmt.Sprintf("%d%s body=%s H %s", res.Status, preSeen, fx.Sum(res.Body), fx.CanonHeaders(res.Headers, fx.ClientDrop))
 		}
 		return strings.Join(strings.Fields(out+s.tail()), " ")
 	case "presp":
